@@ -74,36 +74,48 @@ func (lp *ListParser) ParseList(list listXML, level int) ParsedList {
 func (lp *ListParser) parseListItem(item listItemXML, level int, styleName string, itemNum *int) []ParsedListItem {
 	var result []ParsedListItem
 
-	// Get text from paragraphs
-	var textParts []string
-	for _, para := range item.Paragraphs {
-		text := extractParagraphText(para)
-		if text != "" {
-			textParts = append(textParts, text)
+	// The item's paragraphs and nested lists in document order
+	children := item.Children
+	if children == nil { // not decoded from XML: paragraphs first, then nested lists
+		for i := range item.Paragraphs {
+			children = append(children, listItemChild{Paragraph: &item.Paragraphs[i]})
+		}
+		for i := range item.SubLists {
+			children = append(children, listItemChild{List: &item.SubLists[i]})
 		}
 	}
-	text := strings.Join(textParts, " ")
 
-	// Get bullet/number for this item
-	bullet := lp.getBullet(styleName, level, *itemNum)
-
-	if text != "" {
+	// Consecutive paragraphs make up one entry; a nested list ends it, and
+	// paragraphs that follow the nested list stay after it
+	var textParts []string
+	flush := func() {
+		text := strings.Join(textParts, " ")
+		textParts = nil
+		if text == "" {
+			return
+		}
 		result = append(result, ParsedListItem{
 			Text:   text,
 			Level:  level,
-			Bullet: bullet,
+			Bullet: lp.getBullet(styleName, level, *itemNum),
 		})
 		*itemNum++
 	}
-
-	// Process nested lists
-	for _, subList := range item.SubLists {
+	for _, child := range children {
+		if child.Paragraph != nil {
+			if text := extractParagraphText(*child.Paragraph); text != "" {
+				textParts = append(textParts, text)
+			}
+			continue
+		}
+		flush()
 		subItemNum := 1
-		for _, subItem := range subList.Items {
-			subItems := lp.parseListItem(subItem, level+1, subList.StyleName, &subItemNum)
+		for _, subItem := range child.List.Items {
+			subItems := lp.parseListItem(subItem, level+1, child.List.StyleName, &subItemNum)
 			result = append(result, subItems...)
 		}
 	}
+	flush()
 
 	return result
 }
